@@ -311,7 +311,9 @@ fn tall_screen_scrolls(ctx: &Ctx, rep: &mut Report) {
     let curs = [0usize, 1, 64, 65, 100];
     let mut cases: Vec<(usize, usize, usize, usize)> = vec![];
     for &h in &heights {
-        for f in 0..4 {
+        // (f / 4 = the way the whole screen was made the scroll region beforehand: not at all,
+        // `CSI r`, `CSI 1 r`, `CSI ; 0 r` - the bottom defaults to a row beyond 65535)
+        for f in 0..16 {
             for &n in &counts {
                 for &cr in &curs {
                     cases.push((h, f, n, cr));
@@ -354,9 +356,10 @@ fn tall_screen_scrolls(ctx: &Ctx, rep: &mut Report) {
                     setup.push_str(&goto(m));
                     setup.push_str(&label(m));
                 }
+                setup.push_str(["", "\x1b[r", "\x1b[1r", "\x1b[;0r"][f / 4]);
                 setup.push_str(&goto(cr));
                 let _ = vt.feed_str(&setup);
-                let fin = ['S', 'T', 'L', 'M'][f];
+                let fin = ['S', 'T', 'L', 'M'][f % 4];
                 let _ = vt.feed_str(&format!("\x1b[{}{}", n, fin));
                 // where each row of the result comes from (None = vacated blank)
                 let src = |r: usize| -> Option<usize> {
@@ -393,7 +396,7 @@ fn tall_screen_scrolls(ctx: &Ctx, rep: &mut Report) {
                 }
                 None
             });
-            let name = ["SU", "SD", "IL", "DL"][f];
+            let name = format!("{}{}", ["", "after CSI r: ", "after CSI 1 r: ", "after CSI ;0 r: "][f / 4], ["SU", "SD", "IL", "DL"][f % 4]);
             match r {
                 Ok(None) => None,
                 Ok(Some(d)) => Some(format!("2x{}: {} {} with the cursor on row {}: {}", h, name, n, cr, d)),
